@@ -54,7 +54,9 @@ def hyperplaneOp (j : Json) : R Json := do
 def refSpectrumOp (j : Json) : R Json := do
   let ev ← qArr (← field j "evals")
   let eps ← qf j "eps"
-  return Json.mkObj [("accept", Json.bool (isReflSpectrum eps ev.toList)),
+  let vnorm ← toQ (fieldD j "vnorm" (Json.str "1"))
+  return Json.mkObj [("accept", Json.bool (fromReflectionAccepts eps ev.toList vnorm)),
+    ("spectrum_ok", Json.bool (isReflSpectrum eps ev.toList)),
     ("argmin", match argminIdx ev.toList with | some i => Json.num (JsonNumber.fromNat i) | none => Json.null)]
 
 def fixOrderOp (j : Json) : R Json := do
